@@ -24,7 +24,7 @@ LEVEL_TEXT = ('The record filter and the loop-end condition form a small state m
 DRIVERS = {
     'nowind': {}, 'tail20': {'wind': 'tail'}, 'tail60slow': {'wind': 'tail60', 'mv': 900.0}, 'head20': {'wind': 'head'},
     'cross10': {'wind': 'cross'}, 'quarter': {'wind': 'quarter'}, 'elev60': {'zero': 60.0}, 'look20': {'look': 20.0},
-    'cant90': {'cant': 90.0},
+    'cant90': {'cant': 90.0}, 'cantneg25': {'cant': -25.0, 'sh': 3.0}, 'cant200look': {'cant': 200.0, 'look': -10.0},
 }
 MAX_STEP = 0.5
 U_ = 0.25
@@ -309,7 +309,7 @@ def plan(tier):
            for rform in ('bare', 'Meter', 'Yard', 'Inch')]
     sc = []
     ranges = [1.0, 10.0, 300.0, 3000.0] + ([5280.0, 10560.0] if tier == 'thorough' else [])
-    for d in (DRIVERS if tier == 'thorough' else ('nowind', 'tail20', 'quarter', 'look20')):
+    for d in (DRIVERS if tier == 'thorough' else ('nowind', 'tail20', 'quarter', 'look20', 'cantneg25', 'cant200look')):
         for R in ranges:
             for stn in ('R', 'R/2', 'R/3', 'none', '0.5', '0.7', 'R/7'):
                 if stn in ('0.5', '0.7') and R > 3000:
